@@ -6,6 +6,8 @@
 mod codec;
 mod env;
 mod gen;
+mod lang;
+mod tree;
 mod numrun;
 mod rng;
 mod run;
@@ -23,6 +25,27 @@ fn gen_stream(stream: &str, n: u64, seed: u64) {
         "evaltable" => { let d = gen::table_env().show(); for i in 0..gen::table_len() { writeln!(w, "eval {} {}", d, show_expr(&gen::table_case(i).unwrap())).unwrap(); } }
         "eval" | "evalill" => for _ in 0..n { let d = gen::gen_env(&mut r); let depth = 1 + r.below(4) as u32;
             let e = gen::gen_tree(&mut r, depth, stream == "evalill"); writeln!(w, "eval {} {}", d.show(), show_expr(&e)).unwrap(); },
+        "scanfrag" => { // exhaustive fragment sequences up to length n (n = 3 or 4), then nothing random
+            for len in 1..=(n as usize) { for i in 0..32u64.pow(len as u32) { writeln!(w, "scan {}", hex(&lang::frag_seq(i, len))).unwrap(); } } }
+        "scan" => for _ in 0..n { writeln!(w, "scan {}", hex(&lang::gen_text(&mut r))).unwrap(); },
+        "compile" => for _ in 0..n { writeln!(w, "compile {}", hex(&lang::gen_text(&mut r))).unwrap(); },
+        "rr" => for _ in 0..n { writeln!(w, "rr {}", hex(&lang::gen_text(&mut r))).unwrap(); },
+        "lay" => for _ in 0..n { let (a, b) = lang::gen_layout_pair(&mut r); writeln!(w, "lay {} {}", hex(&a), hex(&b)).unwrap(); },
+        "parsekinds" => { let kinds = lang::tok_kinds(); let k = kinds.len() as u64;
+            for len in 0..=(n as usize) { for mut i in 0..k.pow(len as u32) { let mut ts = vec![]; for _ in 0..len { ts.push(kinds[(i % k) as usize].clone()); i /= k; }
+                writeln!(w, "parse {}", lang::show_tok_line(&ts)).unwrap(); } } }
+        "parse" => for _ in 0..n { let len = r.usize(41); let ts = lang::gen_tokens(&mut r, len); writeln!(w, "parse {}", lang::show_tok_line(&ts)).unwrap(); },
+        "rt" => for _ in 0..n { let d = 1 + r.below(4) as u32; let e = lang::gen_src_tree(&mut r, d); writeln!(w, "rt {} {}", r.below(6), show_expr(&e)).unwrap(); },
+        "opt" | "optill" => for _ in 0..n { let d = gen::gen_env(&mut r); let depth = 1 + r.below(4) as u32;
+            let e = tree::gen_opt_tree(&mut r, depth, stream == "optill"); writeln!(w, "opt {} {}", d.show(), show_expr(&e)).unwrap(); },
+        "chkvf" => for _ in 0..n { let d = gen::gen_env(&mut r); let depth = 1 + r.below(3) as u32;
+            let ill = r.chance(1, 4); let e = if r.chance(1, 2) { tree::gen_opt_tree(&mut r, depth, false) } else { gen::gen_tree(&mut r, depth, ill) }; writeln!(w, "chkvf {} {}", d.show(), show_expr(&e)).unwrap(); },
+        "chkbool" => for _ in 0..n { let d = gen::gen_env(&mut r); let depth = 1 + r.below(3) as u32;
+            let ill = r.chance(1, 4); let e = if r.chance(1, 2) { tree::gen_opt_tree(&mut r, depth, ill) } else { gen::gen_tree(&mut r, depth, ill) }; writeln!(w, "chkbool {} {}", d.show(), show_expr(&e)).unwrap(); },
+        "json" => for _ in 0..n { let depth = r.below(4) as u32; let e = match r.below(3) { 0 => lang::gen_src_tree(&mut r, depth), 1 => tree::gen_opt_tree(&mut r, depth, true), _ => gen::gen_tree(&mut r, depth, true) };
+            writeln!(w, "json {}", show_expr(&e)).unwrap(); },
+        "env" => for _ in 0..n { let big = r.chance(1, 10); let len = 1 + r.usize(if big { 200 } else { 20 }); let wide = r.chance(1, 2); writeln!(w, "{}", tree::gen_env_line(&mut r, len, wide)).unwrap(); },
+        "envex" => { let a = tree::env_alphabet().len() as u64; for len in 1..=(n as usize) { for i in 0..a.pow(len as u32) { writeln!(w, "{}", tree::env_exhaustive(i, len)).unwrap(); } } }
         _ => { eprintln!("unknown stream {stream}"); std::process::exit(2); }
     }
 }
